@@ -725,6 +725,9 @@ func (m strSubstring) Call(args ...interface{}) (v interface{}, err error) {
 	if int(stop) >= len(str) {
 		return nil, fmt.Errorf("stop index too large for string in strSubstring: %d", stop)
 	}
+	if start > stop {
+		return nil, fmt.Errorf("start index %d is after stop index %d in strSubstring", start, stop)
+	}
 
 	v = str[start:stop]
 	return
